@@ -4,7 +4,7 @@
    functions and the record pair env.  `gen_X` is the generator of creator family X; the
    translator checks on every run that the SQL the real creator emits equals `gen_X args`
    (obligation `same_expr`, sound by C16_obligation_sound). *)
-From Coq Require Import String Ascii Bool ZArith QArith Qabs Arith List.
+From Coq Require Import String Ascii Bool ZArith QArith Qabs Arith List Lqa.
 From Splinkv Require Import Base.TV Model.SqlExpr Model.Levels Proofs.LevelsP.
 Import ListNotations.
 Local Open Scope nat_scope.
@@ -84,13 +84,12 @@ Theorem C16_levenshtein_level :
 Proof. exact sem_lev_std. Qed.
 Print Assumptions C16_levenshtein_level.
 
-(* the dynamic programme equals the textbook recursive definition of the edit distance on every pair
-   of strings of length <= 4 over a 3-letter alphabet (decided exhaustively by the kernel VM) *)
-Theorem C16_levenshtein_dp_matches_recursive_definition_bounded :
-  forall s t, In s (lists_upto [0; 1; 2] 4) -> In t (lists_upto [0; 1; 2] 4) ->
-    lev_list Nat.eqb s t = lev_spec Nat.eqb s t.
-Proof. exact lev_dp_matches_spec_bounded. Qed.
-Print Assumptions C16_levenshtein_dp_matches_recursive_definition_bounded.
+(* the dynamic programme `lev_list` (the executable `lev` of the theorem above) equals the textbook recursive definition
+   of the edit distance, for ALL lists over any alphabet *)
+Theorem C16_levenshtein_dp_is_recursive_definition :
+  forall (A : Type) (eqA : A -> A -> bool) (s t : list A), lev_list eqA s t = lev_spec eqA s t.
+Proof. intros. apply lev_list_spec. Qed.
+Print Assumptions C16_levenshtein_dp_is_recursive_definition.
 
 Theorem C16_damerau_levenshtein_level :
   forall P env cl cr t a b tq,
@@ -99,6 +98,25 @@ Theorem C16_damerau_levenshtein_level :
     = doc_le (inject_Z (Z.of_nat (dam_lev a b))) tq.
 Proof. exact sem_dl_std. Qed.
 Print Assumptions C16_damerau_levenshtein_level.
+
+(* independent characterisations of the executable metrics used on the right-hand sides *)
+Theorem C16_jaccard_is_set_ratio :
+  forall a b,
+    let la := list_ascii_of_string a in let lb := list_ascii_of_string b in
+    exists I U : list ascii,
+      NoDup I /\ NoDup U /\
+      (forall c, In c I <-> In c la /\ In c lb) /\ (forall c, In c U <-> In c la \/ In c lb) /\
+      jaccard a b = Qred (inject_Z (Z.of_nat (length I)) / inject_Z (Z.of_nat (length U))).
+Proof. exact jaccard_spec. Qed.
+Print Assumptions C16_jaccard_is_set_ratio.
+
+Theorem C16_jaro_range : forall a b, (0 <= jaro a b <= 1)%Q.
+Proof. exact jaro_range. Qed.
+Print Assumptions C16_jaro_range.
+
+Theorem C16_jaro_winkler_ge_jaro : forall a b, (jaro a b <= jaro_winkler a b)%Q /\ (jaro_winkler a b <= 1)%Q.
+Proof. exact jaro_winkler_ge_jaro. Qed.
+Print Assumptions C16_jaro_winkler_ge_jaro.
 
 Theorem C16_jaccard_level :
   forall P env cl cr t a b tq,
@@ -294,6 +312,18 @@ Print Assumptions C16_case_assigns_first_true.
 (* ---- levels_ok: null level first, else last, thresholds strict-to-loose ---- *)
 Theorem C16_levels_ok_sound :
   forall ls, levels_ok ls = true ->
+    (* the null level is an AND/OR combination of units `x_l IS NULL OR x_r IS NULL` over the same expression x on both records
+       (not `l IS NULL AND r IS NULL`), every column it tests is compared by a later level, and it is FALSE when no tested
+       value is missing / TRUE when every unit has a missing value *)
+    (exists e0 rest us,
+        ls = {| l_null := l_null (hd {| l_null := true; l_cond := None |} ls); l_cond := Some e0 |} :: rest
+        /\ null_units e0 = Some us /\ us <> []
+        /\ (forall u, In u us ->
+              set_side true (fst u) = fst u /\ snd u = set_side false (fst u) /\ col_names (fst u) <> [] /\
+              forall c, In c (col_names (fst u)) -> In c (flat_map col_names (conds rest)))
+        /\ (forall P fenv env,
+              ((forall u, In u us -> eval P fenv env (fst u) <> VNull /\ eval P fenv env (snd u) <> VNull) -> sem P fenv env e0 = F) /\
+              ((forall u, In u us -> eval P fenv env (fst u) = VNull \/ eval P fenv env (snd u) = VNull) -> sem P fenv env e0 = T))) /\
     (* shape; the null level's condition is never unknown *)
     (exists e0 mid,
         ls = {| l_null := true; l_cond := Some e0 |} :: mid ++ [{| l_null := false; l_cond := None |}]
@@ -314,7 +344,10 @@ Theorem C16_levels_ok_sound :
            forall P fenv env e, l_cond li = Some e -> numQ (eval P fenv env lhs) = Some v ->
                                 sem P fenv env e <> T)).
 Proof.
-  intros ls H. split; [|split].
+  intros ls H0. unfold levels_ok in H0. apply andb_true_iff in H0 as [H Hnull]. split; [|split; [|split]].
+  - destruct (null_level_ok_sound ls Hnull) as (e0 & rest & us & E & Hu & Hne & Hall). exists e0, rest, us.
+    split; [exact E|]. split; [exact Hu|]. split; [exact Hne|]. split; [exact Hall|].
+    intros P fenv env. exact (null_units_sem P fenv env e0 us Hu).
   - destruct (levels_ok_shape ls H) as (e0 & mid & E & Hn & Hm). exists e0, mid.
     split; [exact E|]. split; [exact Hm|]. split.
     + intros P fenv env. now apply null_shape_two_valued.
@@ -352,6 +385,15 @@ Definition ex_levels (t1 t2 : Z) : list lvl :=
     {| l_null := false; l_cond := None |} ].
 Example C16_example_levels_ok : levels_ok (ex_levels 1 2) = true /\ levels_ok (ex_levels 2 1) = false.
 Proof. vm_compute. auto. Qed.
+Example C16_example_levels_ok_rejects_bad_null_levels :
+  let mk := fun e0 => {| l_null := true; l_cond := Some e0 |} :: tl (ex_levels 1 2) in
+  levels_ok (mk (EAnd (EIsNull (ex_col true)) (EIsNull (ex_col false)))) = false /\
+  levels_ok (mk (gen_null (ECol true "other") (ECol false "other"))) = false /\
+  levels_ok (mk (EOr (EIsNull (ex_col true)) (EIsNull (ECol false "other")))) = false /\
+  levels_ok (mk (gen_null (ex_col true) (ex_col false))) = true.
+Proof. vm_compute. repeat split. Qed.
+Example C16_example_jaro_identical : jaro "martha" "martha" = 1%Q /\ jaro "aab" "aab" = 1%Q /\ jaro "a" "a" = 1%Q /\ jaro "" "" = 0%Q.
+Proof. vm_compute. repeat split. Qed.
 Example C16_example_level_of :
   let env := fun (s : bool) (_ : string) => if s then VStr "smith" else VStr "snyth" in
   level_of duckdb_profile (std_fenv []) env (ex_levels 1 2) = 3 /\
@@ -369,8 +411,49 @@ Example C16_example_pairwise :
   sem duckdb_profile (std_fenv []) env (gen_pairwise "levenshtein" false (ECol true "arr") (ECol false "arr") (VInt 2)) = T /\
   sem duckdb_profile (std_fenv []) env (gen_pairwise "damerau_levenshtein" false (ECol true "arr") (ECol false "arr") (VInt 1)) = T /\
   sem duckdb_profile (std_fenv []) env (gen_pairwise "levenshtein" false (ECol true "arr") (ECol false "arr") (VInt 1)) = F /\
-  dam_lev "ca" "abc" = 2 /\ lev "ca" "abc" = 3.
-Proof. vm_compute. auto. Qed.
+  dam_lev "ca" "abc" = 2 /\ lev "ca" "abc" = 3 /\ lev "kitten" "sitting" = 3 /\ lev "" "abc" = 3.
+Proof. vm_compute. repeat split. Qed.
+(* the hypotheses of C16_km_level / C16_km_monotone are satisfiable: an interpretation with acos q := 1 - q (antitone),
+   radians x := x / 100, sin := id, cos x := 1 - x and an identity cast; the level is then T or F depending on the threshold *)
+Definition ex_km_fenv (f : string) (args : list val) : val :=
+  match args with
+  | [v] => match numQ v with
+           | Some q =>
+             if String.eqb f "acos" then VNum (1 - q)
+             else if String.eqb f "radians" then VNum (q / 100)
+             else if String.eqb f "sin" then VNum q
+             else if String.eqb f "cos" then VNum (1 - q)
+             else if String.eqb f "cast:float" then VNum q
+             else VNull
+           | None => VNull
+           end
+  | _ => VNull
+  end.
+Example C16_example_km_hypotheses :
+  (forall v q, numQ v = Some q -> ex_km_fenv "acos" [v] = VNum (1 - q)) /\
+  (forall x y : Q, (-1 <= x)%Q -> (x <= y)%Q -> (y <= 1)%Q -> (1 - y <= 1 - x)%Q) /\
+  (forall x, ex_km_fenv ("cast:" ++ "float") [VNum x] = VNum x) /\
+  let env := fun (s : bool) (c : string) => if String.eqb c "lat" then (if s then VInt 10 else VInt 20) else (if s then VInt 10 else VInt 20) in
+  let km := fun t => gen_km "float" false (ECol true "lat") (ECol false "lat") (ECol true "lng") (ECol false "lng") (VInt t) in
+  sem duckdb_profile ex_km_fenv env (km 3000%Z) = T /\ sem duckdb_profile ex_km_fenv env (km 1000%Z) = F.
+Proof.
+  split; [|split; [|split]].
+  - intros v q H. unfold ex_km_fenv. now rewrite H.
+  - intros x y _ H _. lra.
+  - intros x. reflexivity.
+  - vm_compute. split; reflexivity.
+Qed.
+(* ... and C16_km_monotone applies to it (non-vacuous instance) *)
+Example C16_example_km_monotone_instance :
+  forall env latl latr lngl lngr t1 t2 q q1 q2,
+    numQ (eval duckdb_profile ex_km_fenv env (km_partial latl latr lngl lngr)) = Some q ->
+    numQ t1 = Some q1 -> numQ t2 = Some q2 -> (q1 <= q2)%Q ->
+    sem duckdb_profile ex_km_fenv env (gen_km "float" false latl latr lngl lngr t1) = T ->
+    sem duckdb_profile ex_km_fenv env (gen_km "float" false latl latr lngl lngr t2) = T.
+Proof.
+  destruct C16_example_km_hypotheses as (H1 & H2 & H3 & _).
+  exact (proj1 (C16_km_monotone duckdb_profile ex_km_fenv (fun q => 1 - q)%Q "float" H1 H2 H3)).
+Qed.
 Example C16_example_month_seconds :
   time_threshold_seconds (VInt 1) MMonth = VNum 2629800 /\ time_threshold_seconds (VInt 2) MHour = VInt 7200.
 Proof. vm_compute. auto. Qed.
